@@ -2,7 +2,11 @@
 
 Tie: (T) `detect_changing_cause`, the `ChangingRegistry.iter_handlers` gate and HANDLER_REASONS are
 re-extracted from the AST on every run and proved equal to the model (Kopf/Tie/C05.lean);
-(D, exhaustive) every combination is pushed through the real `_detect_causes` and `get_handlers`.
+(D, exhaustive) every combination is pushed through the real `_detect_causes` and `get_handlers`
+(handler shapes: reason x initial x deleted x field_needs_change, i.e. top-level handlers, field handlers
+and sub-handlers); every decision-table row also through the real `process_changing_cause` with handlers
+built by the real decorators and sub-handlers made in kopf's three ways (a sub-handler runs iff its parent
+does: /repo 17e5c42); closed-loop histories, among them deletion handlers with sub-handlers.
 """
 from __future__ import annotations
 
@@ -30,25 +34,51 @@ THEOREMS = [
     ("Kopf.Props.C05", "Kopf.C05.kinds_exclusive"),
     ("Kopf.Props.C05", "Kopf.C05.no_field_on_marked"),
     ("Kopf.Props.C05", "Kopf.C05.kindless_only_in_handled_causes"),
+    ("Kopf.Props.C05", "Kopf.C05.gate_eq_shape"),
+    ("Kopf.Props.C05", "Kopf.C05.invocable_eq_shape"),
+    ("Kopf.Props.C05", "Kopf.C05.shape_wellFormed"),
+    ("Kopf.Props.C05", "Kopf.C05.sub_of_delete_selected"),
+    ("Kopf.Props.C05", "Kopf.C05.sub_follows_parent"),
+    ("Kopf.Props.C05", "Kopf.C05.decorated_wellFormed"),
+    ("Kopf.Props.C05", "Kopf.C05.sub_wellFormed"),
+    ("Kopf.Props.C05", "Kopf.C05.sub_of_delete_invocable"),
+    ("Kopf.Props.C05", "Kopf.C05.sub_of_delete_only_while_held"),
+    ("Kopf.Props.C05", "Kopf.C05.no_sub_of_create_update_field_on_marked"),
+    ("Kopf.Props.C05", "Kopf.C05.old_gate_sub_regression_witness"),
+    ("Kopf.Props.C05", "Kopf.C05.old_gate_differs_only_for_subs"),
 ]
 TIE_THEOREMS = [
     ("Kopf.Tie.C05", "Kopf.C05.Tie.detect_eq"),
     ("Kopf.Tie.C05", "Kopf.C05.Tie.create_forces_noninitial"),
     ("Kopf.Tie.C05", "Kopf.C05.Tie.gate_eq"),
+    ("Kopf.Tie.C05", "Kopf.C05.Tie.sub_gate_is_match"),
+    ("Kopf.Tie.C05", "Kopf.C05.Tie.field_gate_on_marked"),
     ("Kopf.Tie.C05", "Kopf.C05.Tie.handler_reasons_eq"),
 ]
 RULE = ("exhaustive: 2 event-type classes x marked x own-finalizer x stored-essence x essential-diff x "
         "(noticed_by_listing, fully_handled_once) through the real _detect_causes; every handler kind "
-        "(reason x initial x deleted opt-in) x every cause through the real ChangingRegistry.get_handlers; "
-        "a case is non-trivial when it is a distinct (input, output) pair")
+        "(reason x initial x deleted opt-in x field_needs_change: top-level handlers, field handlers AND sub-handler "
+        "shapes) x every cause through the real ChangingRegistry.get_handlers; every decision-table row through the "
+        "real _detect_causes + process_changing_cause with handlers built by the real kopf.on decorators, each with "
+        "sub-handlers made by @kopf.subhandler, kopf.register and kopf.execute(fns=); closed-loop histories incl. "
+        "deletion handlers with sub-handlers; a case is non-trivial when it is a distinct (input, output) pair")
 TRUSTED = ["pyextract atom vocabulary for causes.detect_changing_cause / ChangingRegistry.iter_handlers",
            "the six booleans are read off real bodies by kopf's own finalizers/diffbase code (exercised, not modelled, here)"]
 ASSUMPTIONS = ["filters (`match`) are C15's subject and appear here as an opaque boolean",
-               "reading of 'creation/update handlers': on.create/on.update handlers AND on.field handlers (no cause kind; "
+               "reading of 'creation/update handlers': on.create/on.update handlers AND on.field handlers (no cause kind, "
+               "not resuming, field_needs_change=True; "
                "docs/handlers.rst: 'there is no special detection of the causes for the fields, such as create/update/delete, "
                "so the field handler is effective only when the object is updated'): since /repo 345a874 none of them runs on "
                "an object marked for deletion (`no_create_update_on_marked`, `no_field_on_marked`); field handlers still run "
-               "in the creation cause when the field is present (the code's reading of 'changed'), which the property allows"]
+               "in the creation cause when the field is present (the code's reading of 'changed'), which the property allows",
+               "sub-handlers (@kopf.subhandler, kopf.register, kopf.execute(fns=): no cause kind, not resuming, "
+               "field_needs_change None or inherited from the parent) are of the kind of their parent: they must run exactly "
+               "when the parent does (`sub_follows_parent`), in particular the sub-handlers of a deletion handler run in the "
+               "deletion cause (/repo 17e5c42; `sub_of_delete_selected`, `sub_of_delete_invocable`); the oracle requires "
+               "this in both directions",
+               "the oracle's positive obligations ('must be selected') are stated for the causes detection can produce "
+               "(deletion mark <-> delete/free cause, creation never first-sight, resume always first-sight); the negative "
+               "ones for every combination the registry function accepts"]
 
 REASONS = ["create", "update", "delete", "resume", "noop", "free", "gone"]
 
@@ -71,6 +101,7 @@ GATE_VOCAB = {
     "cause.initial": "c.initial",
     "cause.deleted": "c.marked",
     "handler.deleted": "h.deletedOptIn",
+    "handler.field_needs_change": "h.needsChange",
     "match(handler=handler, cause=cause)": "m",
 }
 
@@ -162,7 +193,7 @@ def extract(ctx: Ctx) -> None:
     out += "/-- (reason, `kwargs['initial']` forced to False in that branch) -/\n"
     out += f"def detect (a : In) : Reason × Bool :=\n    {detect_body}\n\n"
     out += f"def handlerReasons : List Reason := [{', '.join(hrs)}]\n\n"
-    out += f"def gate (h : Handler) (c : Cause) (m : Bool) : Bool :=\n  {reason_guard} &&\n    ({gate_body})\n\n"
+    out += f"def gate (h : Shape) (c : Cause) (m : Bool) : Bool :=\n  {reason_guard} &&\n    ({gate_body})\n\n"
     out += "end Kopf.C05.Extracted\n"
     leanio.write_generated("Kopf/Extracted/C05.lean", out)
 
@@ -224,6 +255,208 @@ def run(ctx: Ctx) -> None:
     closed_loop(ctx)
 
 
+def consistent_cause(reason: str, cinit: bool, marked: bool) -> bool:
+    """Causes that detection can produce (the property's precedence list): the deletion mark goes with the
+    deletion/released causes exactly; a creation is never a first sight; a resume always is."""
+    if reason == "gone":
+        return True
+    if (reason in ("delete", "free")) != marked:
+        return False
+    if reason == "create" and cinit:
+        return False
+    if reason == "resume" and not cinit:
+        return False
+    return True
+
+
+def gate_oracle(ctx: Ctx, hj: dict, cj: dict, selected: bool) -> None:
+    """From the statement, over what the registry was given and what it returned (no filters involved).
+    A handler is: of a cause kind (reason set) | resuming (initial) | a field handler (no kind, not resuming, needs a
+    change of its field: update-only) | a sub-handler (no kind, not resuming, no change needed: of its parent's kind,
+    reached through the parent only)."""
+    hr, hi, hd, hn = hj["reason"], hj["initial"], hj["deleted"], hj["needs_change"]
+    reason, cinit, marked = cj["reason"], cj["initial"], cj["marked"]
+    site = "ChangingRegistry.iter_handlers"
+    is_field = hr is None and not hi and hn
+    is_sub = hr is None and not hi and not hn
+    bad = False
+    if selected and hr is not None and hr != reason:
+        bad = True
+        ctx.oracle_fail(f"a {hr} handler was selected for a {reason} cause", {"handler": hj, "cause": cj},
+                        {"site": site, "shape": "kind-mismatch"})
+    if selected and is_field and marked:
+        bad = True
+        ctx.oracle_fail("a field handler (no cause kind, not resuming, needs a change of its field) was selected on an "
+                        "object marked for deletion", {"handler": hj, "cause": cj}, {"site": site, "shape": "field-on-marked"})
+    if selected and hi and (not cinit or (marked and not hd)):
+        bad = True
+        ctx.oracle_fail("a resume handler was selected without first sight / on a deleting object without opt-in",
+                        {"handler": hj, "cause": cj}, {"site": site, "shape": "resume-gate"})
+    if bad or selected or reason not in REASONS[:4] or not consistent_cause(reason, cinit, marked):
+        return
+    # --- not selected, in a handled cause that detection can produce: was it entitled to run?
+    if is_sub:
+        ctx.oracle_fail(f"a sub-handler (no cause kind, not resuming, no change of a field needed) was not selected for a "
+                        f"{reason} cause{' on an object marked for deletion' if marked else ''}: sub-handlers are of their "
+                        "parent's kind and must run when the parent does", {"handler": hj, "cause": cj},
+                        {"site": site, "shape": "sub-not-selected"})
+    elif (hr is None or hr == reason) and (not hi or (cinit and (not marked or hd))) and not (is_field and marked):
+        ctx.oracle_fail(f"a handler entitled to the {reason} cause (kind, first-sight and deletion criteria all met) was "
+                        "not selected", {"handler": hj, "cause": cj}, {"site": site, "shape": "eligible-not-selected"})
+
+
+def _gate_case(ctx, env, mk_handler, resource, indexers, logger, settings, kind, c, greqs, gimpl, ginp) -> None:
+    causes, registries, bodies, patches = env["causes"], env["registries"], env["bodies"], env["patches"]
+    hr, hi, hd, hn = kind
+    reason, cinit, marked = c
+    reg = registries.OperatorRegistry()
+    reg._changing.append(mk_handler(causes.Reason(hr) if hr else None, hi, hd, hn))
+    body = make_body(settings, marked, True, False, False, 0)
+    cause = causes.ChangingCause(
+        resource=resource, indices=indexers.indices, logger=logger, patch=patches.Patch(), body=bodies.Body(body),
+        memo=None, initial=cinit, reason=causes.Reason(reason))
+    selected = len(reg._changing.get_handlers(cause=cause)) == 1
+    hj = {"reason": hr, "initial": bool(hi), "deleted": bool(hd), "needs_change": bool(hn)}
+    cj = {"reason": reason, "initial": cinit, "marked": marked}
+    ctx.case(key={"h": hj, "c": cj, "sel": selected}, nontrivial=True)
+    ctx.count("gate", selected)
+    shape = ("kind:" + hr) if hr else "resuming" if hi else "field" if hn else "sub"
+    ctx.count("gate_shape", f"{shape}{'+resuming' if hr and hi else ''}:{'marked' if marked else 'unmarked'}:{selected}")
+    gate_oracle(ctx, hj, cj, selected)
+    if greqs is not None:
+        greqs.append(["C05.gate", hj, cj])
+        gimpl.append(selected)
+        ginp.append({"handler": hj, "cause": cj})
+
+
+def _shape(h: Any) -> dict:
+    return {"reason": h.reason.value if h.reason is not None else None, "initial": bool(h.initial),
+            "deleted": bool(h.deleted), "needs_change": bool(h.field_needs_change)}
+
+
+async def _composition(ctx: Ctx, env: dict, settings: Any, resource: Any, logger: Any,
+                       greqs: list, gimpl: list, ginp: list) -> None:
+    """Real body -> real `_detect_causes` -> real `process_changing_cause`, with one handler of every kind built
+    by the real `kopf.on` decorators, each creating sub-handlers in the three ways kopf offers. Observed: which
+    functions were called. Oracle (strict, both ways): a sub-handler runs iff its parent runs; nothing of
+    creation/update/field parentage on a marked object; deletion parentage only marked + held; nothing in
+    gone/released/no-op events."""
+    import kopf
+    from kopf._core.actions import lifecycles
+    registries, processing, inventory, indexing = env["registries"], env["processing"], env["inventory"], env["indexing"]
+    bodies, patches = env["bodies"], env["patches"]
+    called: list[str] = []
+    sub_shapes: dict[str, dict] = {}
+    registry = registries.OperatorRegistry()
+
+    def mk_parent(pid: str):
+        async def sub_reg(**_: Any) -> None:
+            called.append(f"{pid}/reg")
+
+        async def sub_fn(**_: Any) -> None:
+            called.append(f"{pid}/fn")
+
+        async def parent(**_: Any) -> None:
+            called.append(pid)
+
+            @kopf.subhandler(id="dec")
+            async def sub_dec(**_: Any) -> None:
+                called.append(f"{pid}/dec")
+
+            kopf.register(sub_reg, id="reg")
+            from kopf._core.reactor import subhandling
+            for h in subhandling.subregistry_var.get()._handlers:
+                sub_shapes[f"{pid}/{str(h.id).rsplit('/', 1)[-1]}"] = _shape(h)
+            await kopf.execute()                    # the accumulated (inheriting) sub-handlers
+            await kopf.execute(fns={"fn": sub_fn})   # the plain ones
+        parent.__name__ = parent.__qualname__ = pid
+        return parent
+
+    kopf.on.create("kopfexamples", id="c", registry=registry)(mk_parent("c"))
+    kopf.on.update("kopfexamples", id="u", registry=registry)(mk_parent("u"))
+    kopf.on.delete("kopfexamples", id="d", registry=registry)(mk_parent("d"))
+    kopf.on.resume("kopfexamples", id="r", registry=registry)(mk_parent("r"))
+    kopf.on.resume("kopfexamples", id="rd", deleted=True, registry=registry)(mk_parent("rd"))
+    kopf.on.field("kopfexamples", id="f", field="spec.field", registry=registry)(mk_parent("f"))
+    parents = {h.fn.__name__: h for h in registry._changing._handlers}   # (ids get a field suffix)
+    kind_of = {"c": "create", "u": "update", "d": "delete", "r": "resume", "rd": "resume", "f": "field"}
+    if set(parents) != set(kind_of):
+        raise RuntimeError(f"decorators registered unexpected handlers: {sorted(parents)}")
+    for pid, h in parents.items():
+        greqs.append(["C05.decorated", _shape(h)])
+        gimpl.append(True)
+        ginp.append({"decorated": pid, "shape": _shape(h)})
+    indexers = indexing.OperatorIndexers()
+    own = settings.persistence.finalizer
+    sreqs, simpl, sinp = [], [], []
+    for ev_type, marked, blocked, old_absent, diff, noticed, handled_once in itertools.product(
+            ["DELETED", "MODIFIED", None], [False, True], [False, True], [False, True], [False, True],
+            [False, True], [False, True]):
+        body = make_body(settings, marked, blocked, old_absent, diff, 0)
+        memory = inventory.ResourceMemory(noticed_by_listing=noticed)
+        memory.fully_handled_once = handled_once
+        cs = processing._detect_causes(indexers=indexers, registry=registry, settings=settings, resource=resource,
+                                       raw_event={"type": ev_type, "object": body}, body=bodies.Body(body),
+                                       patch=patches.Patch(), memory=memory, local_logger=logger, event_logger=logger)
+        cause = cs.changing_cause
+        del called[:]
+        await processing.process_changing_cause(lifecycle=lifecycles.all_at_once, registry=registry, settings=settings,
+                                                memory=memory, cause=cause)
+        ran = list(called)
+        six = [ev_type == "DELETED", marked, blocked, old_absent, bool(cause.diff), noticed and not handled_once]
+        reason = cause.reason.value
+        ctx.case(key={"comp": six, "ran": sorted(ran)}, nontrivial=True,
+                 sample={"six": six, "reason": reason, "ran": sorted(ran)} if marked and blocked and ran and noticed else None)
+        ctx.count("composition_reason", reason)
+        rep = {"six": six, "event_type": ev_type, "body": body, "reason": reason, "ran": sorted(ran)}
+        held = marked and own in (body["metadata"].get("finalizers") or [])
+        for hid in ran:
+            pid = hid.split("/")[0]
+            k = kind_of[pid]
+            who = f"a {k} handler" if hid == pid else f"a sub-handler ({hid}) of a {k} handler"
+            ctx.count("composition_calls", f"{k}{'/sub' if hid != pid else ''}:{'marked' if marked else 'unmarked'}")
+            if k in ("create", "update", "field") and marked:
+                ctx.oracle_fail(f"{who} was invoked on an object marked for deletion", dict(rep, handler=hid),
+                                {"site": "process_changing_cause", "shape": f"{k} handler on a marked object"})
+            if k == "delete" and not (held and ev_type != "DELETED"):
+                ctx.oracle_fail(f"{who} was invoked while the object was not marked for deletion or not held by the "
+                                "framework's finalizer", dict(rep, handler=hid),
+                                {"site": "process_changing_cause", "shape": "delete handler outside a held deletion"})
+            if oracle_reason(*six) in ("gone", "free", "noop"):
+                ctx.oracle_fail(f"{who} was invoked for a {oracle_reason(*six)} event", dict(rep, handler=hid),
+                                {"site": "process_changing_cause", "shape": "handler in an informational cause"})
+            if hid != pid and pid not in ran:
+                ctx.oracle_fail(f"{who} ran although its parent did not", dict(rep, handler=hid),
+                                {"site": "subhandling.execute", "shape": "sub-handler without its parent"})
+        for pid in kind_of:
+            for how in ("dec", "reg", "fn"):
+                hid = f"{pid}/{how}"
+                if pid in ran and hid not in ran:
+                    ctx.oracle_fail(f"the {kind_of[pid]} handler {pid} ran{' on an object marked for deletion' if marked else ''}, "
+                                    f"its sub-handler {hid} was not selected: the parent finishes without the sub-handler's work",
+                                    dict(rep, handler=hid),
+                                    {"site": "ChangingRegistry.iter_handlers", "shape": f"sub-handler of a {kind_of[pid]} handler not run"})
+                sreqs.append(["C05.sub", _shape(parents[pid]), "plain" if how == "fn" else "inherit", six])
+                simpl.append({"parent": pid in ran, "sub": hid in ran,
+                              "needs_change": sub_shapes.get(hid, {}).get("needs_change") if how != "fn" else False})
+                sinp.append({"parent": pid, "sub": hid, "six": six, "event_type": ev_type})
+    try:
+        outs = ctx.driver.ask(sreqs)
+    except leanio.LeanError as e:
+        ctx.tie_fail(f"Lean driver failed: {e}", {"log": e.log})
+        return
+    for inp, impl, out in zip(sinp, simpl, outs):
+        model = out[1] if out and out[0] == "ok" else out
+        if isinstance(model, dict):
+            if inp["parent"] == "f":      # the field filter (C15's subject) also decides for the field handler
+                model = dict(model, parent=impl["parent"], sub=impl["parent"] and model["sub_gate"])
+            model = {k: model[k] for k in ("parent", "sub", "needs_change")}
+            if impl["needs_change"] is None:   # the parent never ran: no sub-handler was built
+                impl = dict(impl, needs_change=model["needs_change"])
+        ctx.compare("C05 sub-handlers", impl, model, inp)
+    ctx.traces += len(sreqs) // 18
+
+
 async def _run(ctx: Ctx) -> None:
     env = _kopf_env()
     causes, registries, handlers = env["causes"], env["registries"], env["handlers"]
@@ -237,11 +470,11 @@ async def _run(ctx: Ctx) -> None:
     def fn(**_: Any) -> None:
         pass
 
-    def mk_handler(reason, initial, deleted, hid="h"):
+    def mk_handler(reason, initial, deleted, fnc=None, hid="h"):
         return handlers.ChangingHandler(
             fn=fn, id=hid, param=None, errors=None, timeout=None, retries=None, backoff=None,
             selector=references.Selector("kopfexamples"), labels=None, annotations=None, when=None,
-            field=None, value=None, old=None, new=None, field_needs_change=None,
+            field=None, value=None, old=None, new=None, field_needs_change=fnc,
             initial=initial, deleted=deleted, requires_finalizer=None, reason=reason)
 
     registry = registries.OperatorRegistry()
@@ -287,37 +520,25 @@ async def _run(ctx: Ctx) -> None:
         inputs.append({"event_type": ev_type, "six": six_real})
 
     # ---- part 2: the handler gate through the real registry ----------------------------------
+    # the full finite space of what the gate reads: reason x initial x deleted x field_needs_change (None/False/
+    # True: top-level handlers, field handlers, sub-handlers of every parentage) x every cause
     greqs, gimpl, ginp = [], [], []
-    kinds = [(r, i, d) for r in [None, "create", "update", "delete", "resume"]
-             for i in [None, False, True] for d in [None, False, True]]
-    for (hr, hi, hd) in kinds:
-        reg = registries.OperatorRegistry()
-        h = mk_handler(causes.Reason(hr) if hr else None, hi, hd)
-        reg._changing.append(h)
-        for reason, cinit, marked in itertools.product(REASONS, [False, True], [False, True]):
-            body = make_body(settings, marked, True, False, False, 0)
-            cause = causes.ChangingCause(
-                resource=resource, indices=indexers.indices, logger=logger, patch=patches.Patch(), body=bodies.Body(body),
-                memo=None, initial=cinit, reason=causes.Reason(reason))
-            selected = len(reg._changing.get_handlers(cause=cause)) == 1
-            hj = {"reason": hr, "initial": bool(hi), "deleted": bool(hd)}
-            cj = {"reason": reason, "initial": cinit, "marked": marked}
-            ctx.case(key={"h": hj, "c": cj, "sel": selected}, nontrivial=True)
-            ctx.count("gate", selected)
-            # oracle, from the statement: handlers bound to a cause kind run only for that kind;
-            # resume handlers only on first sight, and on deleting objects only when opted in.
-            if selected and hr is not None and hr != reason:
-                ctx.oracle_fail(f"a {hr} handler was selected for a {reason} cause", {"handler": hj, "cause": cj},
-                                {"site": "ChangingRegistry.iter_handlers", "shape": "kind-mismatch"})
-            if selected and hr is None and not hi and marked:
-                ctx.oracle_fail("a field handler (no cause kind, not resuming) was selected on an object marked for deletion",
-                                {"handler": hj, "cause": cj}, {"site": "ChangingRegistry.iter_handlers", "shape": "field-on-marked"})
-            if selected and hi and (not cinit or (marked and not hd)):
-                ctx.oracle_fail("a resume handler was selected without first sight / on a deleting object without opt-in",
-                                {"handler": hj, "cause": cj}, {"site": "ChangingRegistry.iter_handlers", "shape": "resume-gate"})
-            greqs.append(["C05.gate", hj, cj])
-            gimpl.append(selected)
-            ginp.append({"handler": hj, "cause": cj})
+    kinds = [(r, i, d, n) for r in [None, "create", "update", "delete", "resume"]
+             for i in [None, False, True] for d in [None, False, True] for n in [None, False, True]]
+    causes_all = list(itertools.product(REASONS, [False, True], [False, True]))
+    corpus_gate = [d for _, d in __import__("harness.core", fromlist=["load_corpus"]).load_corpus("C05") if d.get("kind") == "gate"]
+    for d in corpus_gate:     # corpus first
+        hj, cj = d["replay"]["handler"], d["replay"]["cause"]
+        _gate_case(ctx, env, mk_handler, resource, indexers, logger, settings,
+                   (hj["reason"], hj["initial"], hj["deleted"], hj["needs_change"]),
+                   (cj["reason"], cj["initial"], cj["marked"]), None, None, None)
+        ctx.count("corpus", "gate")
+    for kind in kinds:
+        for c in causes_all:
+            _gate_case(ctx, env, mk_handler, resource, indexers, logger, settings, kind, c, greqs, gimpl, ginp)
+
+    # ---- part 3: real decorators, real sub-handlers, real detection + real handling pass ------------
+    await _composition(ctx, env, settings, resource, logger, greqs, gimpl, ginp)
 
     # ---- the tie: same inputs through the Lean model ------------------------------------------
     try:
@@ -361,13 +582,18 @@ def closed_loop(ctx: Ctx) -> None:
     scenarios = [c14.gen_scenario(ctx.rng, 31_000_000 + ctx.seed * 100000 + i) for i in range(n)]
     scenarios += [c02.gen_supersede(ctx.rng, 32_000_000 + ctx.seed * 100000 + i) for i in range(n // 2)]
     scenarios += [gen_field_delete(ctx.rng, 33_000_000 + ctx.seed * 100000 + i) for i in range(max(12, n // 3))]
-    scenarios += [d.get("scenario", d) for _, d in __import__("harness.core", fromlist=["load_corpus"]).load_corpus("C05")]
+    scenarios += [gen_sub_delete(ctx.rng, 34_000_000 + ctx.seed * 100000 + i) for i in range(max(16, n // 3))]
+    corpus = [d["scenario"] for _, d in __import__("harness.core", fromlist=["load_corpus"]).load_corpus("C05")
+              if d.get("kind") == "scenario"]
+    scenarios = corpus + scenarios     # corpus first
+    ctx.count("corpus", "scenario", len(corpus))
     for sc, res in zip(scenarios, pool.run_many(scenarios, wall=40.0)):
         if "trace" not in res or res["trace"].get("sim_error"):
             raise RuntimeError(f"simulation failed: {str(res)[:1500]}")
         tr = res["trace"]
         ctx.traces += 1
         _call_clauses(ctx, sc, tr)
+        _sub_clauses(ctx, sc, tr)
         first_by_listing: dict[tuple, bool] = {}
         ended: set[tuple] = set()
         for cyc in tr["cycles"]:
@@ -436,26 +662,136 @@ def gen_field_delete(rng: Any, i: int) -> dict:
             "settings": {"execution.default_backoff": 1.0}, "end": t + 25.0}
 
 
+def gen_sub_delete(rng: Any, i: int) -> dict:
+    """A deletion handler with two sub-handlers (the regression of /repo 345a874, repaired by 17e5c42: they were
+    never selected, the parent finished at once and the object was released without their work), next to
+    creation/update/field/resume handlers with sub-handlers of their own; the object is deleted at various moments."""
+    def subs(n: int = 2) -> list[dict]:
+        return [{"id": f"s{j}", "script": [rng.choice(["ok", "ok", ["temp", 0.5], ["temp", 1.0], "perm"])], "default": "ok"}
+                for j in range(n)]
+    handlers = [{"kind": "delete", "id": "d0", "opts": {}, "script": [rng.choice(["ok", "ok", ["temp", 1.0]])], "default": "ok",
+                 "sub": subs()}]
+    if rng.random() < 0.5:
+        handlers.append({"kind": "create", "id": "c0", "script": ["ok"], "default": "ok", "sub": subs(rng.choice([1, 2]))})
+    if rng.random() < 0.5:
+        handlers.append({"kind": "update", "id": "u0", "script": ["ok"], "default": "ok", "sub": subs(rng.choice([1, 2]))})
+    if rng.random() < 0.4:
+        handlers.append({"kind": "field", "id": "f0", "opts": {"field": "spec.x"}, "script": ["ok"], "default": "ok", "sub": subs(1)})
+    if rng.random() < 0.3:
+        handlers.append({"kind": "resume", "id": "r0", "opts": {"deleted": rng.random() < 0.6}, "script": ["ok"], "default": "ok",
+                         "sub": subs(1)})
+    if rng.random() < 0.3:
+        handlers.append({"kind": "delete", "id": "d1", "opts": {}, "script": ["ok"], "default": "ok"})
+    rng.shuffle(handlers)
+    tl: list[list] = [[1.0, "create", "a", {"spec": {"x": 0, "y": 0}}]]
+    t = rng.choice([1.015625, 1.5, 6.0, 6.0, 8.0])
+    mode = rng.choice(["plain", "plain", "edit-then-delete", "down", "restart-during-deletion", "edit-during-deletion"])
+    if mode == "down":
+        tl += [[t, rng.choice(["stop", "kill"])], [t + 0.75, "delete", "a"], [t + 1.5, "start"]]
+    elif mode == "restart-during-deletion":
+        tl += [[t, "delete", "a"], [t + rng.choice([0.25, 0.75]), rng.choice(["stop", "kill"])], [t + 2.0, "start"]]
+    elif mode == "edit-during-deletion":
+        tl += [[t, "delete", "a"], [t + rng.choice([0.015625, 0.25, 0.75]), "edit", "a", {"spec": {"x": 2}}]]
+    elif mode == "edit-then-delete":
+        tl += [[t, "edit", "a", {"spec": {"x": 1}}], [t + rng.choice([0.015625, 0.5, 3.0, 6.0]), "delete", "a"]]
+    else:
+        tl += [[t, "delete", "a"]]
+    return {"seed": i, "c05": "sub-delete", "lifecycle": rng.choice(["asap", "one_by_one", "all_at_once", None]),
+            "handlers": handlers, "timeline": tl, "settings": {"execution.default_backoff": 1.0}, "end": t + 30.0}
+
+
+OWN = "kopf.zalando.org/KopfFinalizerMarker"
+
+
+def _kind_clauses(ctx: Ctx, sc: dict, c: dict, k: str, who: str) -> None:
+    if k in ("create", "update", "field") and c.get("marked"):
+        ctx.oracle_fail(f"{who} was invoked on an object marked for deletion",
+                        {"scenario": sc, "call": c}, {"site": "ChangingRegistry.iter_handlers", "shape": f"{k} handler on a marked object"})
+    if k == "delete" and not (c.get("marked") and OWN in (c.get("finalizers") or [])):
+        ctx.oracle_fail(f"{who} was invoked while the object was not marked for deletion "
+                        "or not held by the framework's finalizer",
+                        {"scenario": sc, "call": c}, {"site": "ChangingRegistry.iter_handlers", "shape": "delete handler outside a held deletion"})
+    if k in ("create", "update", "delete", "resume", "field") and c.get("reason") in ("gone", "free", "noop"):
+        ctx.oracle_fail(f"{who} invoked for a {c.get('reason')} event",
+                        {"scenario": sc, "call": c}, {"site": "process_changing_cause", "shape": "handler in an informational cause"})
+
+
 def _call_clauses(ctx: Ctx, sc: dict, tr: dict) -> None:
-    """Which handlers ran, from the property text, over the body each invocation was given."""
-    own = "kopf.zalando.org/KopfFinalizerMarker"
+    """Which handlers ran, from the property text, over the body each invocation was given. A sub-handler is of
+    the kind of its parent."""
     kinds = {h["id"]: h for h in sc["handlers"]}
+    parent_of = {f"{h['id']}/{s['id']}": h for h in sc["handlers"] for s in h.get("sub", [])}
     for c in tr["calls"]:
         h = kinds.get(c["id"])
-        if h is None:
-            continue
-        k = h["kind"]
-        if k in ("create", "update", "field") and c.get("marked"):
-            ctx.oracle_fail(f"a {k} handler ({c['id']}) was invoked on an object marked for deletion",
-                            {"scenario": sc, "call": c}, {"site": "ChangingRegistry.iter_handlers", "shape": f"{k} handler on a marked object"})
-        if k == "delete" and not (c.get("marked") and own in (c.get("finalizers") or [])):
-            ctx.oracle_fail(f"a deletion handler ({c['id']}) was invoked while the object was not marked for deletion "
-                            "or not held by the framework's finalizer",
-                            {"scenario": sc, "call": c}, {"site": "ChangingRegistry.iter_handlers", "shape": "delete handler outside a held deletion"})
-        if k in ("create", "update", "delete", "resume", "field") and c.get("reason") in ("gone", "free", "noop"):
-            ctx.oracle_fail(f"change handler {c['id']} invoked for a {c.get('reason')} event",
-                            {"scenario": sc, "call": c}, {"site": "process_changing_cause", "shape": "handler in an informational cause"})
-        ctx.count("closed_loop_calls", f"{k}:{'marked' if c.get('marked') else 'unmarked'}")
+        if h is not None:
+            k = h["kind"]
+            _kind_clauses(ctx, sc, c, k, f"a {k} handler ({c['id']})" if k in ("create", "update", "field", "delete")
+                          else f"change handler {c['id']}")
+            ctx.count("closed_loop_calls", f"{k}:{'marked' if c.get('marked') else 'unmarked'}")
+        elif c["id"] in parent_of:
+            k = parent_of[c["id"]]["kind"]
+            _kind_clauses(ctx, sc, c, k, f"a sub-handler ({c['id']}) of a {k} handler")
+            ctx.count("closed_loop_calls", f"{k}/sub:{'marked' if c.get('marked') else 'unmarked'}")
+
+
+def _scripted_plainly(h: dict) -> bool:
+    """The scripted parent runs its sub-handlers exactly in its `ok` passes (observe._make_plain)."""
+    return all(a in ("ok", "perm", "arb", "temp") or (isinstance(a, list) and a and a[0] == "temp")
+               for a in list(h.get("script", [])) + [h.get("default", "ok")])
+
+
+def _sub_clauses(ctx: Ctx, sc: dict, tr: dict) -> None:
+    """Sub-handlers run when their parent does: (a) a parent invocation that came back finished (its `kopf.execute`
+    returned: no unfinished children) implies that each of its sub-handlers has come to an end (succeeded or failed
+    for good) by then, on the same object in the same state of deletion; (b) in the deletion histories generated
+    here: the framework's finalizer is not released before every sub-handler of every deletion handler has ended."""
+    parents = [h for h in sc["handlers"] if h.get("sub") and h["kind"] in ("create", "update", "delete", "resume", "field")
+               and _scripted_plainly(h)]
+    final = ("ok", "perm")
+    for h in parents:
+        for c in tr["calls"]:
+            if c["id"] != h["id"] or c.get("outcome") != "ok" or c.get("t_end") is None:
+                continue
+            for s in h["sub"]:
+                sid = f"{h['id']}/{s['id']}"
+                done = [x for x in tr["calls"] if x["id"] == sid and x.get("uid") == c.get("uid") and x.get("outcome") in final
+                        and x["t"] <= c["t_end"] and bool(x.get("marked")) == bool(c.get("marked"))]
+                ctx.case(key={"subdone": [h["kind"], bool(c.get("marked")), bool(done)]}, nontrivial=True)
+                if not done:
+                    ctx.oracle_fail(f"the {h['kind']} handler {h['id']} finished at t={c['t_end']}"
+                                    f"{' on an object marked for deletion' if c.get('marked') else ''} although its sub-handler "
+                                    f"{sid} never ran to an end: sub-handlers are of their parent's kind and run with it",
+                                    {"scenario": sc, "call": c, "sub": sid},
+                                    {"site": "ChangingRegistry.iter_handlers", "shape": f"sub-handler of a {h['kind']} handler not run"})
+    if sc.get("c05") != "sub-delete":
+        return
+    for name, versions in tr["history"].items():
+        held_uids: set = set()
+        released: dict = {}
+        for v in versions:
+            meta = (v.get("body") or {}).get("metadata", {})
+            uid = meta.get("uid")
+            has_own = OWN in (meta.get("finalizers") or [])
+            if v.get("event") == "DELETED" or (not has_own and meta.get("deletionTimestamp")):
+                if uid in held_uids and uid not in released:     # (the DELETED record carries the last stored body)
+                    released[uid] = v["t"]
+            elif has_own:
+                held_uids.add(uid)
+        for uid, t_rel in released.items():
+            for h in parents:
+                if h["kind"] != "delete":
+                    continue
+                for s in h["sub"]:
+                    sid = f"{h['id']}/{s['id']}"
+                    done = [x for x in tr["calls"] if x["id"] == sid and x.get("uid") == uid and x.get("outcome") in final
+                            and x["t"] <= t_rel]
+                    ctx.case(key={"released": [len(h["sub"]), bool(done)]}, nontrivial=True)
+                    ctx.count("closed_loop_release", "after all sub-handlers of the deletion handlers" if done else "EARLY")
+                    if not done:
+                        ctx.oracle_fail(f"the framework's finalizer was released at t={t_rel} before the sub-handler {sid} of "
+                                        f"the deletion handler {h['id']} had run to an end",
+                                        {"scenario": sc, "object": name, "uid": uid, "released_at": t_rel, "sub": sid},
+                                        {"site": "ChangingRegistry.iter_handlers", "shape": "released before the deletion sub-handlers ran"})
 
 
 def search(ctx: Ctx, broken: list) -> None:
